@@ -217,3 +217,113 @@ Fixpoint lit (s : String.string) : str :=
 Export String.StringSyntax.
 Delimit Scope string_scope with string.
 Arguments lit s%string.
+
+(* --- lines, whitespace ------------------------------------------------------------------- *)
+Definition nl : char := 10.
+Definition cr : char := 13.
+
+(* pieces between occurrences of a character; always at least one piece *)
+Fixpoint split_char (d : char) (s : str) : list str :=
+  match s with
+  | [] => [[]]
+  | c :: r =>
+      if c =? d then [] :: split_char d r
+      else match split_char d r with
+           | p :: ps => (c :: p) :: ps
+           | [] => [[c]]
+           end
+  end.
+
+Definition strip_cr (s : str) : str :=
+  match rev s with c :: r => if c =? cr then rev r else s | [] => s end.
+
+(* str::lines: split at '\n', a final empty piece is dropped, one trailing '\r' per line too *)
+Definition lines (s : str) : list str :=
+  let ps := split_char nl s in
+  let ps := match rev ps with [] :: r => rev r | _ => ps end in
+  map strip_cr ps.
+
+(* char::is_whitespace: the Unicode White_Space property (stable set) *)
+Definition is_whitespace (c : char) : bool :=
+  ((9 <=? c) && (c <=? 13)) || (c =? 32) || (c =? 133) || (c =? 160) || (c =? 5760) ||
+  ((8192 <=? c) && (c <=? 8202)) || (c =? 8232) || (c =? 8233) || (c =? 8239) || (c =? 8287) || (c =? 12288).
+
+Fixpoint take_while (f : char -> bool) (s : str) : str :=
+  match s with c :: r => if f c then c :: take_while f r else [] | [] => [] end.
+
+(* str::split_whitespace().next() *)
+Definition first_token (s : str) : option str :=
+  match take_while (fun c => negb (is_whitespace c)) (trim_start_chars is_whitespace s) with
+  | [] => None
+  | t => Some t
+  end.
+
+Definition last_piece (l : list str) : str := last l [].
+
+(* --- generic facts about prefixes, suffixes and trimming (used by Proofs/Path_proofs.v) ---- *)
+Lemma starts_with_false_strip p s : starts_with p s = false -> strip_prefix p s = None.
+Proof.
+  revert s; induction p as [|x p IH]; intros s; cbn [starts_with strip_prefix]; [discriminate|].
+  destruct s as [|y s]; [reflexivity|].
+  destruct (x =? y); cbn [andb]; [apply IH | reflexivity].
+Qed.
+
+Lemma strip_prefix_app p s : strip_prefix p (p ++ s) = Some s.
+Proof. apply strip_prefix_spec; reflexivity. Qed.
+
+Lemma trim_start_fuel_none f p s : starts_with p s = false -> trim_start_matches_fuel f p s = s.
+Proof.
+  intros H. destruct f; cbn [trim_start_matches_fuel]; [reflexivity|].
+  destruct p; [reflexivity|]. rewrite (starts_with_false_strip _ _ H). reflexivity.
+Qed.
+
+Lemma trim_start_fuel_step f p s :
+  p <> [] -> trim_start_matches_fuel (S f) p (p ++ s) = trim_start_matches_fuel f p s.
+Proof.
+  intros H. cbn [trim_start_matches_fuel]. destruct p as [|c p]; [congruence|].
+  rewrite strip_prefix_app. reflexivity.
+Qed.
+
+Lemma trim_start_matches_none p s : starts_with p s = false -> trim_start_matches p s = s.
+Proof. intros H. apply trim_start_fuel_none; exact H. Qed.
+
+Lemma trim_start_matches_once p s :
+  p <> [] -> starts_with p s = false -> trim_start_matches p (p ++ s) = s.
+Proof.
+  intros Hp H. unfold trim_start_matches. destruct p as [|c p]; [congruence|].
+  change (length ((c :: p) ++ s)) with (S (length (p ++ s))).
+  rewrite trim_start_fuel_step by discriminate. apply trim_start_fuel_none; exact H.
+Qed.
+
+Lemma trim_end_matches_none p s : ends_with p s = false -> trim_end_matches p s = s.
+Proof.
+  intros H. unfold trim_end_matches. rewrite trim_start_matches_none by exact H.
+  apply rev_involutive.
+Qed.
+
+Lemma trim_end_matches_once p s :
+  p <> [] -> ends_with p s = false -> trim_end_matches p (s ++ p) = s.
+Proof.
+  intros Hp H. unfold trim_end_matches. rewrite rev_app_distr.
+  rewrite trim_start_matches_once; [apply rev_involutive | | exact H].
+  intros E. apply Hp. apply (f_equal (@rev _)) in E. rewrite rev_involutive in E. exact E.
+Qed.
+
+Lemma starts_with_app_notin p a c b : ~ In c p -> starts_with p (a ++ c :: b) = starts_with p a.
+Proof.
+  revert a; induction p as [|x p IH]; intros a Hc; [reflexivity|].
+  destruct a as [|y a]; cbn [app starts_with].
+  - destruct (N.eqb_spec x c) as [->|Hne]; [exfalso; apply Hc; left; reflexivity | reflexivity].
+  - rewrite IH; [reflexivity | intros Hin; apply Hc; right; exact Hin].
+Qed.
+
+Lemma ends_with_app_notin p a c b : ~ In c p -> ends_with p (a ++ c :: b) = ends_with p b.
+Proof.
+  intros Hc. unfold ends_with. rewrite rev_app_distr. cbn [rev]. rewrite <- app_assoc.
+  cbn [app]. apply starts_with_app_notin. rewrite <- in_rev. exact Hc.
+Qed.
+
+Lemma strip_suffix_app p s : strip_suffix p (s ++ p) = Some s.
+Proof.
+  unfold strip_suffix. rewrite rev_app_distr, strip_prefix_app, rev_involutive. reflexivity.
+Qed.
